@@ -70,6 +70,23 @@ static int mon_tmpname(char* d, size_t n, char const* fmt, ...) {
     return 1;
 }
 #define as_snprintf mon_tmpname
+/* SHA-1 stand-in for the named ($$) temporary symbols: the "digest" is the first character and the length of the hashed
+ * text, the hex string is 'h' + those two - a function of the hashed text only, which is all the property needs */
+#include "sha1.h"
+void SHA1Init(SHA1_CTX* c) { c->count[0] = 0; c->count[1] = 0; }
+void SHA1Update(SHA1_CTX* c, unsigned char const* data, Card32 len) { c->count[0] = len ? data[0] : 0; c->count[1] = len; }
+void SHA1Final(unsigned char digest[20], SHA1_CTX* c) { digest[0] = (unsigned char)c->count[0]; digest[1] = (unsigned char)c->count[1]; }
+void SHA1ToHexString(unsigned char digest[20], char* hexstring) { hexstring[0] = 'h'; hexstring[1] = (char)(digest[0] ? digest[0] : '0'); hexstring[2] = (char)('0' + (digest[1] & 7)); hexstring[3] = 0; }
+/* strmaxprep2 by its contract (verified on the real strutil.c in str_strmaxprep2): fitting prefix of src, then fitting prefix of dest */
+void strmaxprep2(char* d, char const* s, size_t max) {
+    char tmp[24]; size_t sl = 0, dl = 0, i;
+    while (sl < 12 && s[sl]) sl++; while (dl < 12 && d[dl]) dl++;
+    if (sl > max - 1) sl = max - 1; if (dl > max - 1 - sl) dl = max - 1 - sl;
+    for (i = 0; i < dl; i++) tmp[i] = d[i];
+    for (i = 0; i < sl; i++) d[i] = s[i];
+    for (i = 0; i < dl; i++) d[sl + i] = tmp[i];
+    d[sl + dl] = 0;
+}
 /* memmove with a symbolic length: CBMC's library model (variable-length array + array_replace) lost the moved bytes here
  * (spurious failure, the native replay passes); a bounded byte loop through a temporary with the same range obligations */
 static void* verif_memmove(void* d, void const* s, size_t n) {
@@ -498,4 +515,49 @@ void h_ChkTmp2(void) {
         if (src == e_symbol_source_none) VPOST(TmpSymLog[i].Back == L0[i].Back && TmpSymLog[i].Counter == L0[i].Counter, "C13: references leave the log of minus symbols alone");
     VREACH("end");
 }
+
+/* Named ($$) and composed (.name) temporary symbols (manual, "Temporary Symbols"): both are private to the stretch between two
+ * non-temporary labels.  "$$x" becomes x + a suffix that depends on the last non-temporary label only (same suffix for every
+ * use up to the next such label, recomputed after it); ".x" becomes <last non-temporary label>.x; defining a non-temporary
+ * symbol makes it the new anchor; a mere reference changes nothing.  Names of 0..4 characters over { $ . a b }. */
+static int seq13(char const* a, char const* b) { int i; for (i = 0; i < 16; i++) { if (a[i] != b[i]) return 0; if (!a[i]) return 1; } return 1; }
+void h_ChkTmp13(void) {
+    static char name[STRINGSIZE], lg[STRINGSIZE]; char n0[6], l0[4], want[16], suf[4]; int src, i, k, had_suffix; Boolean r;
+    VND_BYTES(name, 6); name[4] = 0;
+    for (i = 0; i < 4; i++) VASSUME(name[i] == '$' || name[i] == '.' || name[i] == 'a' || name[i] == 'b' || name[i] == 0);
+    VND_BYTES(lg, 4); lg[2] = 0; VASSUME((lg[0] == 'g' || lg[0] == 'q' || lg[0] == 0) && (lg[1] == 'g' || lg[1] == 0));
+    LastGlobSymbol = lg;
+    for (i = 0; i < 6; i++) n0[i] = name[i]; for (i = 0; i < 4; i++) l0[i] = lg[i];
+    /* the suffix belonging to the current anchor, as the stand-in digest defines it */
+    { int len = (lg[0] == 0) ? 0 : (lg[1] == 0) ? 1 : 2; suf[0] = 'h'; suf[1] = lg[0] ? lg[0] : '0'; suf[2] = (char)('0' + len); suf[3] = 0; }
+    /* representation invariant: the cached suffix is empty or the one of the current anchor */
+    VND(had_suffix, int); VASSUME(had_suffix == 0 || had_suffix == 1);
+    if (had_suffix) { for (i = 0; i < 4; i++) TmpSymCounterVal[i] = suf[i]; } else TmpSymCounterVal[0] = 0;
+    VND(src, int); VASSUME(src == e_symbol_source_none || src == e_symbol_source_label || src == e_symbol_source_define);
+    FwdSymCounter = BackSymCounter = 0; TmpSymLogDepth = 0;
+    r = ChkTmp(name, (as_symbol_source_t)src);
+    if (n0[0] == '$' && n0[1] == '$') {
+        k = 0; for (i = 2; i < 5 && n0[i]; i++) want[k++] = n0[i]; for (i = 0; i < 3; i++) want[k++] = suf[i]; want[k] = 0;
+        VPOST(r && seq13(name, want), "C13: $$name becomes name + the suffix of the current stretch (a function of the last non-temporary label only)");
+        VPOST(seq13(lg, l0), "C13: a named temporary symbol does not end the stretch");
+        VPOST(seq13(TmpSymCounterVal, suf), "C13: the suffix stays the same for the rest of the stretch");
+        VREACH("named");
+    } else if (n0[0] == '.') {
+        k = 0; for (i = 0; i < 3 && l0[i]; i++) want[k++] = l0[i]; for (i = 0; i < 5 && n0[i]; i++) want[k++] = n0[i]; want[k] = 0;
+        VPOST(r && seq13(name, want), "C13: .name becomes <last non-temporary label>.name");
+        VPOST(seq13(lg, l0), "C13: a composed temporary symbol does not end the stretch");
+        VREACH("composed");
+    } else if (n0[0] != '+' && n0[0] != '-' && n0[0] != '/') {
+        VPOST(!r && seq13(name, n0), "C13: any other name is no temporary symbol and stays as written");
+        if (src != e_symbol_source_none) {
+            VPOST(seq13(lg, n0) && TmpSymCounterVal[0] == 0, "C13: defining a non-temporary symbol starts a new stretch: it is the new anchor and the $$ suffix is recomputed");
+            VREACH("new anchor");
+        } else {
+            VPOST(seq13(lg, l0) && (TmpSymCounterVal[0] != 0) == (had_suffix != 0), "C13: a reference does not start a new stretch");
+            VREACH("reference");
+        }
+    }
+    VREACH("end");
+}
 #endif
+
